@@ -213,6 +213,10 @@ def run_pair(case):
             return result(sim, nontrivial=True)
 
         # ---------------------------------------------------------------- success: consistency
+        if bool(ks0) != bool(ks1):
+            # whether a non-bonding pairing is stored is not judged; that the two ends decide alike is (a key held by one side only
+            # cannot be "the same key" on a later connection)
+            sim.violation_once('store-asym', f'keys-stored-on-one-side-only:bonding={int(A["bonding"])}/{int(B["bonding"])}', f'initiator store {list(ks0)}, responder store {list(ks1)}')
         if not (c0.is_encrypted and c1.is_encrypted):
             sim.violation_once('enc', f'paired-but-link-not-encrypted:{facts}', f'initiator {c0.is_encrypted}, responder {c1.is_encrypted}')
         # association model as seen through the delegates
